@@ -80,7 +80,7 @@ pub struct Stats {
     pub evaluations: u64,
     pub faults: BTreeMap<&'static str, u64>,
     pub distinct: BTreeSet<u64>,
-    pub sim_ns: u64,
+    pub sim_ns: u128,
     pub samples: Vec<String>,
 }
 
@@ -186,7 +186,7 @@ impl Exec {
                 }
             }
             Op::Advance { dt_ns, .. } => {
-                self.stats.sim_ns += *dt_ns;
+                self.stats.sim_ns += *dt_ns as u128;
                 if *dt_ns > 3600 * 1_000_000_000 {
                     self.stats.fault("clock_jump");
                 }
@@ -513,13 +513,37 @@ pub fn run_batch(seed: u64, prop: &PropCfg, known: &[KnownFinding], workers: usi
             let min_bad = min_bad.clone();
             let results = results.clone();
             s.spawn(move || {
-                std::panic::set_hook(Box::new(|_| {}));
                 loop {
                     let i = next.fetch_add(1, Ordering::SeqCst);
                     if i >= total || i > min_bad.load(Ordering::SeqCst) {
                         break;
                     }
-                    let mut r = run_one(seed, prop, i, known);
+                    // a panic of the harness itself (not of contract code, which is caught at the call
+                    // boundary) must surface as a harness error with its location, never as a silent exit
+                    let mut r = match std::panic::catch_unwind(std::panic::AssertUnwindSafe(|| run_one(seed, prop, i, known))) {
+                        Ok(r) => r,
+                        Err(_) => {
+                            let mode = prop.modes[(i % prop.modes.len() as u64) as usize];
+                            let mut rng = Prng::for_run(seed, prop.id, i);
+                            let (cfg, _) = gen::world_for(mode, &mut rng);
+                            RunResult {
+                                collected: BTreeMap::new(),
+                                run: i,
+                                mode,
+                                cfg,
+                                ops: vec![],
+                                violation: None,
+                                known_hits: BTreeMap::new(),
+                                stats: Stats::default(),
+                                reach: BTreeMap::new(),
+                                transitions: BTreeSet::new(),
+                                state_classes: BTreeSet::new(),
+                                interleavings: BTreeSet::new(),
+                                log_hash: 0,
+                                harness_error: Some(format!("internal panic in the harness: {}", crate::chain::last_panic())),
+                            }
+                        }
+                    };
                     if r.violation.is_some() || r.harness_error.is_some() {
                         min_bad.fetch_min(i, Ordering::SeqCst);
                     } else {
